@@ -27,6 +27,7 @@ RULE = (
     "info, warning, error} x (message,args) in 6 forms (incl. an argument whose __str__ raises: never-raises only) x optional exception; non-trivial = the "
     "call is made inside a nested scope, or the name / message needs %-handling"
 )
+RULE += ' Rounds 10-13: LONG names (64-1000 characters); MANY scopes (9-40 (100) nodes as chain, star, sequences of outermost scopes) with unique identifiers and fresh trace ids; concurrent siblings yielding inside their scopes.'
 ASSUMPTIONS = [
     "records are captured by a handler on the root logger (loggers propagate); logger identity = record.name",
     "a message whose own format and arguments agree: 'm', 'm %s'%(x,), '%d+%s'%(1,'y'), '%(k)s'%{'k':1}, '100% sure' without arguments",
